@@ -170,6 +170,16 @@ def run_property(prop, rules, tier, seed, explanation, assumptions, trusted):
         print("[%s] CHECK CANNOT DECIDE (fail closed): %s" % (rule, b))
         print("VIOLATION property=%s replay=%s" % (prop, rp))
 
+    selftest = []
+    if tier == "thorough" and not fatal:
+        from . import selftest as st
+        selftest = st.run(prop)
+        for r in selftest:
+            if r["fired"] is False:
+                print("SELFTEST-MISS (defect of the checker, not of the property): seeded edit %s [%s] was %s" % (r["mutant"], r.get("what", ""), r["detail"]))
+        fired = len([r for r in selftest if r["fired"]])
+        print("   self-test: %d/%d seeded edits reported (%d skipped)" % (fired, len([r for r in selftest if r["fired"] is not None]),
+                                                                       len([r for r in selftest if r["fired"] is None])))
     instances = [i for res in results for i in res.instances]
     distinct = len({(i["rule"], i["key"]) for i in instances})
     per_rule = {}
@@ -215,6 +225,9 @@ def run_property(prop, rules, tier, seed, explanation, assumptions, trusted):
             "checker_broken": [b for _, b in broken],
             "trusted_base": trusted,
             "exhaustive": True,
+            "selftest_total": len([r for r in selftest if r["fired"] is not None]),
+            "selftest_fired": len([r for r in selftest if r["fired"]]),
+            "selftest": selftest,
         },
         "assumptions": assumptions,
         "wall_s": round(time.time() - t0, 3),
